@@ -70,8 +70,64 @@ func c12Float(f float64) any {
 	return c12M{"t": "flt", "k": "fin", "neg": neg, "d": c12Digits(strings.ReplaceAll(mant, ".", "")), "e": e}
 }
 
-// c12Enc encodes a value emitted by gojq, keeping the Go representation of numbers apart.
+// c12Depth: nesting depth of containers.
+func c12Depth(v any) int {
+	d := 0
+	switch v := v.(type) {
+	case []any:
+		for _, x := range v {
+			d = max(d, c12Depth(x))
+		}
+		return d + 1
+	case map[string]any:
+		for _, x := range v {
+			d = max(d, c12Depth(x))
+		}
+		return d + 1
+	}
+	return 0
+}
+
+// c12Flat appends the nodes of v in preorder: containers as {"t", "n", "keys"} followed by their children.
+// (The JSON reader of the model checker refuses documents nested deeper than 255.)
+func c12Flat(v any, toks *[]any) {
+	switch v := v.(type) {
+	case []any:
+		*toks = append(*toks, c12M{"t": "arr", "n": len(v)})
+		for _, x := range v {
+			c12Flat(x, toks)
+		}
+	case map[string]any:
+		ks := make([]string, 0, len(v))
+		for k := range v {
+			ks = append(ks, k)
+		}
+		sort.Strings(ks)
+		keys := make([]any, len(ks))
+		for i, k := range ks {
+			keys[i] = c12Bytes(k)
+		}
+		*toks = append(*toks, c12M{"t": "obj", "n": len(v), "keys": keys})
+		for _, k := range ks {
+			c12Flat(v[k], toks)
+		}
+	default:
+		*toks = append(*toks, c12EncNested(v))
+	}
+}
+
+// c12Enc encodes a value emitted by gojq, keeping the Go representation of numbers apart;
+// deeply nested values are written as a flat preorder node list.
 func c12Enc(v any) any {
+	if c12Depth(v) > 50 {
+		toks := []any{}
+		c12Flat(v, &toks)
+		return c12M{"t": "flat", "toks": toks}
+	}
+	return c12EncNested(v)
+}
+
+func c12EncNested(v any) any {
 	switch v := v.(type) {
 	case nil:
 		return c12M{"t": "null"}
@@ -90,7 +146,7 @@ func c12Enc(v any) any {
 	case []any:
 		xs := make([]any, len(v))
 		for i, x := range v {
-			xs[i] = c12Enc(x)
+			xs[i] = c12EncNested(x)
 		}
 		return c12M{"t": "arr", "a": xs}
 	case map[string]any:
@@ -101,7 +157,7 @@ func c12Enc(v any) any {
 		sort.Strings(ks) // bytewise: the canonical order of the model
 		xs := make([]any, len(ks))
 		for i, k := range ks {
-			xs[i] = []any{c12Bytes(k), c12Enc(v[k])}
+			xs[i] = []any{c12Bytes(k), c12EncNested(v[k])}
 		}
 		return c12M{"t": "obj", "o": xs}
 	case error:
